@@ -164,6 +164,17 @@ fn rehome_crate_paths(src: &str, gen: &str, shadow: &str) -> String {
                 continue;
             }
         }
+        // (round 12) `::std::fs::read_dir(..)` names the extern crate whatever `std` is in scope:
+        // the leading `::` goes, so that the path resolves to the shadow like every other one
+        // (macros spell paths this way as a matter of course: control `q5_r1`). In the library
+        // copy `::core::` likewise.
+        if b[i] == b':' && !(i > 0 && (b[i - 1] == b':' || b[i - 1].is_ascii_alphanumeric() || b[i - 1] == b'_' || b[i - 1] == b'>')) {
+            let lib = gen.starts_with("crate::");
+            if src[i..].starts_with("::std::") || (lib && src[i..].starts_with("::core::")) {
+                i += 2;
+                continue;
+            }
+        }
         if src[i..].starts_with("crate::") {
             let prev_ident = i > 0 && (b[i - 1].is_ascii_alphanumeric() || b[i - 1] == b'_');
             if !prev_ident {
